@@ -112,14 +112,6 @@ theorem cex2_adm (kCN : Nat) : Adm (vtraj (cexInp 2) kCN 0) := by
   have h3 := cex_step2_sigma 2 kCN [[0],[0]]
   rw [cex2_vtraj]
   constructor
-  · intro j hj
-    simp only [List.length_cons, List.length_nil] at hj
-    have : j = 0 ∨ j = 1 ∨ j = 2 ∨ j = 3 := by omega
-    rcases this with rfl | rfl | rfl | rfl
-    · simp [nth, fresh]
-    · simp [nth, cexV1]
-    · simp [nth, cexV2]; norm_num
-    · simp only [nth, List.getD_eq_getElem?_getD]; exact le_of_lt (by simpa using h3)
   · intro j m hjm hm hpos
     simp only [List.length_cons, List.length_nil] at hm
     have : m = 0 ∨ m = 1 ∨ m = 2 ∨ m = 3 := by omega
